@@ -297,6 +297,12 @@ func (w *world) step(op string) (status string) {
 			return "err"
 		}
 		return "ok"
+	case "copyto":
+		// copyto:<src>:<dst> : src.CopyTo(dst)
+		if err := T(1).CopyTo(T(2)); err != nil {
+			return "err"
+		}
+		return "ok"
 	case "safeT":
 		// the package-level tensor.T is SafeT
 		var r *tensor.Dense
@@ -369,6 +375,11 @@ func runProgK(dt string, prog string, keep bool) string {
 		trackSpares = false
 		if spareClobbered() {
 			st += "!wrote-beyond-callers-slice"
+		}
+		if !keep {
+			scribble() // (progk reports the retained axes lists themselves, so it keeps them intact)
+		} else {
+			handed = handed[:0]
 		}
 		if st == "panic" {
 			out = append(out, "panic")
